@@ -17,6 +17,9 @@ type DecResult struct {
 	V      cty.Value
 	Err    bool
 	Unspec string
+	// EmptyMultiLabelMap: some BlockMapSpec with two or more labels had no (valid) block,
+	// the situation of the known finding blockmap-multilabel-empty-type.
+	EmptyMultiLabelMap bool
 }
 
 // TransformUpper is the reference semantics of the harness transform function:
@@ -173,9 +176,27 @@ func Conforms(got, want cty.Type) bool {
 }
 
 type decCtx struct {
-	env *Env
-	err bool
-	un  string
+	env        *Env
+	err        bool
+	un         string
+	emptyMulti bool
+	opts       DecodeOpts
+}
+
+// DecodeOpts selects known deviations of the implementation that the reference reproduces,
+// so that everything else in the same case is still compared strictly.
+type DecodeOpts struct {
+	// EmptyMultiLabelMapQuirk: a BlockMapSpec with two or more labels and no block yields
+	// cty.MapValEmpty(<nested type>) - one map level per extra label short of its implied
+	// type (known finding blockmap-multilabel-empty-type).
+	EmptyMultiLabelMapQuirk bool
+}
+
+// DecodeWith is Decode with options.
+func DecodeWith(s *gen.SpecM, body *ast.Body, labels []string, env *Env, o DecodeOpts) DecResult {
+	d := &decCtx{env: env, opts: o}
+	v := d.body(s, body, labels)
+	return DecResult{V: v, Err: d.err, Unspec: d.un, EmptyMultiLabelMap: d.emptyMulti}
 }
 
 // Decode decodes body under spec. labels are the labels of the enclosing block that
@@ -183,7 +204,7 @@ type decCtx struct {
 func Decode(s *gen.SpecM, body *ast.Body, labels []string, env *Env) DecResult {
 	d := &decCtx{env: env}
 	v := d.body(s, body, labels)
-	return DecResult{V: v, Err: d.err, Unspec: d.un}
+	return DecResult{V: v, Err: d.err, Unspec: d.un, EmptyMultiLabelMap: d.emptyMulti}
 }
 
 func (d *decCtx) body(s *gen.SpecM, body *ast.Body, labels []string) cty.Value {
@@ -478,8 +499,14 @@ func (d *decCtx) keyed(s *gen.SpecM, bls []ast.Block) cty.Value {
 		}
 	}
 	nty := ImpliedType(s.Nested)
+	if s.Kind == gen.SBlockMap && depth >= 2 && (len(root.order) == 0 || d.err) {
+		d.emptyMulti = true
+	}
 	if d.err || d.un != "" {
 		return cty.DynamicVal
+	}
+	if d.opts.EmptyMultiLabelMapQuirk && s.Kind == gen.SBlockMap && depth >= 2 && len(root.order) == 0 {
+		return cty.MapValEmpty(nty)
 	}
 	var build func(n *keyedNode, remaining int) cty.Value
 	build = func(n *keyedNode, remaining int) cty.Value {
@@ -499,6 +526,12 @@ func (d *decCtx) keyed(s *gen.SpecM, bls []ast.Block) cty.Value {
 				ety = cty.Map(ety)
 			}
 			return cty.MapValEmpty(ety)
+		}
+		if !cty.CanMapVal(vals) {
+			// only possible through the reproduced one-level-short empty map of a nested
+			// multi-label BlockMapSpec: the implementation reports the blocks as inconsistent
+			d.err = true
+			return cty.DynamicVal
 		}
 		return cty.MapVal(vals)
 	}
